@@ -88,9 +88,14 @@ def scratch_root():
     return _scratch_root
 
 
+class Abort(BaseException):
+    """Unwinds an account's main thread at the end of an execution."""
+
+
 class StanzaDispatcher(YowConnectionDispatcher):
-    """Dispatcher double carrying stanza trees instead of bytes; asyncore callback discipline
-    (onConnected from inside connect(), disconnect() calls onDisconnected synchronously)."""
+    """Dispatcher double carrying stanza trees instead of bytes.  Callback discipline of the real dispatchers:
+    connect() does not return while the connection is up (asyncore.loop / the socket read loop run inside it, and
+    every received stanza is handed to the stack from there); disconnect() calls onDisconnected synchronously."""
     by_net = {}        # id(network layer instance) -> Account
 
     def __init__(self, callbacks):
@@ -99,18 +104,31 @@ class StanzaDispatcher(YowConnectionDispatcher):
         self._connected = False
 
     def connect(self, host):
-        self.connectionCallbacks.onConnecting()
         acc = self.account
+        self.connectionCallbacks.onConnecting()
         acc.dispatcher = self
         acc.connects += 1
         self._connected = True
-        passive = acc.stack.getProp(YowAuthenticationProtocolLayer.PROP_PASSIVE, False)
-        # the passive flag travels in the login payload: read what the stack would present *after* its own
-        # connected handlers ran (the control layer may switch passive on when it has keys to upload)
         self.connectionCallbacks.onConnected()
+        # the passive flag travels in the login payload: what the stack presents after its connected handlers ran
         passive = acc.stack.getProp(YowAuthenticationProtocolLayer.PROP_PASSIVE, False)
         acc.logins.append(bool(passive))
         acc.world.server.on_connect(acc.jid, passive)
+        if acc.thread is None or not acc.thread.is_current():
+            # connect requested from outside the account's main thread (should not happen in this harness)
+            acc.handler_errors.append(("HarnessError", "connect() called outside the account's main thread", "connect", ""))
+            return
+        while self._connected:
+            acc.thread.block("up")
+            while acc.mailbox and self._connected:
+                node = acc.mailbox.pop(0)
+                try:
+                    self.connectionCallbacks.onRecvData(node)
+                except Abort:
+                    raise
+                except Exception as e:
+                    import traceback
+                    acc.handler_errors.append((type(e).__name__, str(e)[:200], node.tag, traceback.format_exc()[-900:]))
 
     def sendData(self, data):
         if self._connected:
@@ -126,6 +144,84 @@ class StanzaDispatcher(YowConnectionDispatcher):
             self._connected = False
             self.account.world.server.on_disconnect(self.account.jid)
             self.connectionCallbacks.onDisconnected()
+
+
+class AccountThread(object):
+    """The main thread of one client process: `connect; loop()` as the demos do.  Strict hand-off with the driver
+    (exactly one of them runs at any time), i.e. a coroutine implemented with a real thread because the library's
+    connect() blocks."""
+
+    def __init__(self, account):
+        import threading
+        self.account = account
+        self.go = threading.Semaphore(0)
+        self.idle = threading.Semaphore(0)
+        self.state = "new"
+        self.stop = False
+        self.want_connect = False
+        self.thread = threading.Thread(target=self._main, name="acc-" + account.phone)
+        self.thread.daemon = True
+        self.ident = None
+        self.thread.start()
+        self.idle.acquire()          # wait until it is parked in "boot"
+
+    def is_current(self):
+        import threading
+        return threading.get_ident() == self.ident
+
+    def block(self, state):
+        """Called by the account thread: park until the driver resumes us."""
+        self.state = state
+        self.idle.release()
+        self.go.acquire()
+        self.state = "running"
+        if self.stop:
+            raise Abort()
+
+    def resume(self):
+        """Called by the driver: let the account thread run until it parks again."""
+        if self.state == "dead":
+            return
+        self.go.release()
+        if not self.idle.acquire(timeout=60):
+            raise RuntimeError("account thread %s did not park (state %s)" % (self.account.phone, self.state))
+
+    def _main(self):
+        import threading
+        self.ident = threading.get_ident()
+        acc = self.account
+        try:
+            self.block("boot")
+            while True:
+                if self.want_connect:
+                    self.want_connect = False
+                    acc.stack.broadcastEvent(YowLayerEvent(YowNetworkLayer.EVENT_STATE_CONNECT))
+                # stack.loop(): run deferred callbacks (they may reconnect, which blocks in here again)
+                while True:
+                    try:
+                        cb = acc.queue.get(False)
+                    except _queue.Empty:
+                        break
+                    try:
+                        cb()
+                    except Abort:
+                        raise
+                    except Exception as e:
+                        import traceback
+                        acc.handler_errors.append((type(e).__name__, str(e)[:200], "detached-event", traceback.format_exc()[-900:]))
+                self.block("down")
+        except Abort:
+            pass
+        finally:
+            self.state = "dead"
+            self.idle.release()
+
+    def kill(self):
+        if self.state != "dead":
+            self.stop = True
+            self.go.release()
+            self.idle.acquire(timeout=10)
+            self.thread.join(5)
 
 
 class AppProbe(YowLayer):
@@ -171,6 +267,9 @@ class Account(object):
         self.handler_errors = []
         self.generation = 0       # bumped by reinstall
         self.archive = []         # entities received by earlier processes of this account (before restarts)
+        self.thread = None
+        self.mailbox = []
+        self.queue = None
         self.build()
 
     def build(self):
@@ -181,11 +280,18 @@ class Account(object):
         NetL.SocketConnectionDispatcher = StanzaDispatcher
         cfg = Config(phone=self.phone, cc=self.phone[:2], pushname="n-" + self.phone)
         self.profile = YowProfile(self.phone, cfg)
-        props = {"profile": self.profile, PROP_IDENTITY_AUTOTRUST: self.autotrust,
-                 YowIqProtocolLayer.PROP_PING_INTERVAL: 0}
+        props = {"profile": self.profile, YowIqProtocolLayer.PROP_PING_INTERVAL: 0}
+        if self.autotrust is not None:          # None = the application never touched the option (library default)
+            props[PROP_IDENTITY_AUTOTRUST] = self.autotrust
         layers = (YowNetworkLayer, AxolotlControlLayer, YowParallelLayer((AxolotlSendLayer, AxolotlReceivelayer)),
                   YowParallelLayer(YowStackBuilder.getProtocolLayers()), AppProbe)
-        self.stack = YowStack(layers, reversed=False, props=props)
+        if self.thread is not None:
+            self.thread.kill()
+        self.mailbox = []
+        self.queue = _queue.Queue()
+        # every client is its own process: its stack gets its own deferred-event queue (a class attribute in yowsup)
+        stack_cls = type("AccountStack", (YowStack,), {"_YowStack__detachedQueue": self.queue})
+        self.stack = stack_cls(layers, reversed=False, props=props)
         self.stack.setProp(YowNetworkLayer.PROP_ENDPOINT, ("e1.whatsapp.net", 443))
         self.net = self.stack.getLayer(0)
         StanzaDispatcher.by_net[id(self.net)] = self
@@ -194,20 +300,35 @@ class Account(object):
         self.send_layer, self.recv_layer = self.enc.sublayers
         self.app = self.stack.getLayer(4)
         self.dispatcher = None
+        self.thread = AccountThread(self)
 
     # -- endpoint used by the server double
     def receive(self, node):
-        try:
-            self.dispatcher.connectionCallbacks.onRecvData(node)
-        except Exception as e:
-            import traceback
-            self.handler_errors.append((type(e).__name__, str(e)[:200], node.tag, traceback.format_exc()[-600:]))
+        """Deliver one stanza: the account's main thread hands it to the stack from inside connect()."""
+        self.mailbox.append(node)
+        self.thread.resume()
+
+    def kick(self):
+        """Let the main thread run if it has something to do (connection just closed, deferred events queued)."""
+        t = self.thread
+        if t.state == "up" and (self.dispatcher is None or not self.dispatcher._connected or self.mailbox):
+            t.resume()
+            return True
+        if t.state in ("down", "boot") and (t.want_connect or not self.queue.empty()):
+            t.resume()
+            return True
+        return False
 
     def all_received(self):
         return self.archive + self.app.received
 
     def connect(self):
-        self.stack.broadcastEvent(YowLayerEvent(YowNetworkLayer.EVENT_STATE_CONNECT))
+        """Application asks for a connection: performed by the account's main thread."""
+        self.thread.want_connect = True
+        self.kick()
+
+    def up(self):
+        return self.dispatcher is not None and self.dispatcher._connected
 
     def manager(self):
         return self.profile.axolotl_manager
@@ -250,16 +371,18 @@ class World(object):
 
     # -- stepping
     def pump(self):
-        """Run deferred (detached) events of all stacks to exhaustion."""
+        """Let every client's main thread catch up (closed connections, deferred events) until all are parked."""
         n = 0
-        q = YowStack._YowStack__detachedQueue
         while True:
-            try:
-                cb = q.get(False)
-            except _queue.Empty:
+            any_ = False
+            for j in self.order:
+                if self.accounts[j].kick():
+                    any_ = True
+                    n += 1
+            if not any_:
                 return n
-            n += 1
-            cb()
+            if n > 1000:
+                raise RuntimeError("account threads do not come to rest")
 
     def settle(self, limit=2000):
         """Default schedule: process everything in global FIFO order until nothing is queued."""
@@ -280,7 +403,6 @@ class World(object):
         if a.dispatcher is not None and a.dispatcher._connected:
             a.dispatcher._connected = False
             self.server.on_disconnect(a.jid)
-        _drain_detached()
         try:
             a.profile.axolotl_manager._store.identityKeyStore.dbConn.close()
         except Exception:
@@ -294,7 +416,7 @@ class World(object):
         if a.dispatcher is not None and a.dispatcher._connected:
             a.dispatcher._connected = False
             self.server.on_disconnect(a.jid)
-        _drain_detached()
+        a.thread.kill()
         try:
             a.profile.axolotl_manager._store.identityKeyStore.dbConn.close()
         except Exception:
@@ -309,6 +431,8 @@ class World(object):
 
     def close(self):
         for a in self.accounts.values():
+            if a.thread is not None:
+                a.thread.kill()
             try:
                 a.profile.axolotl_manager._store.identityKeyStore.dbConn.close()
             except Exception:
